@@ -79,7 +79,7 @@ def scenarios(rng: random.Random, tier: str):
             pre = (cfg_line(rq) + " | start | acc | acc | rx 0 " + nodegen.cer("peer1.x", "4", n(), n()) +
                    " | rx 1 " + nodegen.cer("peer2.x", "4", n(), n()))
             evs = []
-            pool = [7001, 7002, 7003]
+            pool = rng.choice([[7001, 7002, 7003], [0, 1, 4294967295], [0, 7001, 2147483648]])      # boundary identifiers too
             nreq = 0
             unanswered = []
             for _ in range(rng.randrange(4, 13)):
